@@ -431,7 +431,11 @@ pub fn explore(b: &Bounds, seed: i64, workers: usize, persist_dir: &str) -> Stat
             std::thread::Builder::new()
                 .stack_size(64 << 20)
                 .spawn(move || {
-                    let path = PathBuf::from(format!("{persist_dir}/w{w}.ron"));
+                    // one directory per worker: no contention on a shared directory's lock
+                    let dir = format!("{persist_dir}/w{w}");
+                    std::fs::create_dir_all(&dir)
+                        .unwrap_or_else(|e| verif_common::machinery_error(&format!("cannot create {dir}: {e}")));
+                    let path = PathBuf::from(format!("{dir}/blueprint.ron"));
                     let mut st = Stats::default();
                     let mut idx: usize = 0;
                     // the case whose blueprint is currently in `path`
